@@ -77,6 +77,11 @@ def checkBlocks (codec : String) (sync : Bytes) : List (List Bytes) → List Byt
 def parseFwOps : List Sexp → Option (List FwOp)
   | [] => some []
   | .list [.atom "h"] :: r => (parseFwOps r).map (FwOp.header :: ·)
+  | .list [.atom "bn", n, _size] :: r => do
+    -- a large block whose bytes are not carried in the case: which call fails does not depend on them
+    let n ← asNat n
+    let rest ← parseFwOps r
+    pure (.block n [] :: rest)
   | .list [.atom "b", n, d] :: r => do
     let n ← asNat n
     let d ← asBytes d
